@@ -37,7 +37,8 @@ MANIFEST = {
             "inside an input span, covering every bit of every input span by an atom inside that span, and split at every span "
             "boundary and requested endpoint. Proved: no partition hides a cycle, and a partition whose classes the bit edges "
             "relate uniformly gives exactly the bit-level verdict; a read in an always_comb block sees the latest preceding "
-            "write, else the block-entry value. The detector (4.5k lines) is not transcribed: its verdict is compared, both "
+            "write, else the block-entry value, and the merge after an if/case is the union over the arms (retained state "
+            "contributes nothing); PackedSpan overlaps/intersection/translated are interval arithmetic. The detector (4.5k lines) is not transcribed: its verdict is compared, both "
             "directions, with the Gallina reference evaluated on the same abstract design for generated designs (bit/part "
             "selects with shifted self copies, rotations, arrays, struct members, always_comb with branches and sequential "
             "reassignment, several always_comb blocks, functions, 2-level hierarchy, widths across 64/128, loops through "
@@ -261,8 +262,12 @@ def py_mode(design, mode, tabs):
         for (s, l, c) in reversed(tab):
             for n in range(s, s + l):
                 d[n] = c
+        byc = {}
+        for n, c in d.items():
+            byc.setdefault(c, []).append(n)
+        members = {n: byc[c] for n, c in d.items()}
         cls = lambda n, d=d: d.get(n, n)
-        if G.py_has_cycle(G.py_quotient(G.py_graph(root, cls), cls)):
+        if G.py_has_cycle(G.py_quotient(G.py_graph(root, cls, members), cls)):
             return True
     return False
 
@@ -508,6 +513,7 @@ def judge_designs(res, binary, designs, labels, tier, tagname):
     name = "c14_%s_%d" % (tagname, os.getpid())
     exact = coq_exact(designs, name)
     pending = []      # (index, verdict) to explain
+    part_bad = {}     # index -> why the dumped partition breaks a guarantee of build_bit_partition
     unusable = 0
     mirror_bad = []
     for i, (d, im, ex) in enumerate(zip(designs, impl, exact)):
@@ -537,15 +543,12 @@ def judge_designs(res, binary, designs, labels, tier, tagname):
             continue
         bad = partition_split_ok(d, im)
         if bad:
-            res.violation("partition-not-split", "the detector's bit partition is not split at an access of the design: %s %s[%d] [%d+%d]: %s"
-                          % bad[0], {"kind": "design", "text": texts[i], "design_b64": dump_design(d), "label": labels[i],
-                                     "partition": im["mods"].get(bad[0][0], ([], []))[0]})
-        bad = partition_closed_once(d, im)
-        if bad:
-            res.violation("partition-not-closed-once", "the detector's bit partition is not closed under one application of a "
-                          "positional transfer of the design: %s.%s point %d maps to %s point %d inside an atom of %r" % bad[0],
-                          {"kind": "design", "text": texts[i], "design_b64": dump_design(d), "label": labels[i],
-                           "partition": im["mods"].get(bad[0][0], ([], []))[0]})
+            part_bad[i] = "not split at an access of the design: %s %s[%d] [%d+%d]: %s" % bad[0]
+        else:
+            bad = partition_closed_once(d, im)
+            if bad:
+                part_bad[i] = ("not closed under one application of a positional transfer of the design: %s.%s point %d "
+                               "maps to %s point %d inside an atom of %r" % bad[0])
         if det != ex:
             pending.append((i, det))
     res.obligation("python mirror of the lowering agrees with the Gallina reference (%s)" % tagname, not mirror_bad,
@@ -568,12 +571,24 @@ def judge_designs(res, binary, designs, labels, tier, tagname):
         if e:
             ok = conf[ci] == det
             ci += 1
+        if e and ok and "partition-not-closed" in e[0] and i in part_bad:
+            # the recorded class presumes a partition split at every access and closed under one transfer step
+            ok = False
         if e and ok:
             for f in e[0]:
                 res.hist("known_finding_hits", "%s (%s)" % (f, "false loop" if det else "missed loop"))
                 res.violation(f, "known class %s: %s" % (f, labels[i]), {})
         else:
             unexplained.append((i, det))
+    res.obligation("the detector's partition is split at every access and closed under one transfer step (%s)" % tagname,
+                   not part_bad, str(list(part_bad.items())[:2]))
+    if part_bad and not any(i in part_bad for (i, _) in unexplained):
+        i = sorted(part_bad)[0]
+        res.violation("correspondence", "the detector's bit partition is %s; no design with a wrong verdict was found among the "
+                      "generated ones" % part_bad[i],
+                      {"no_longer_checks": "build_bit_partition: atoms split at every access / closed under one step of every transfer",
+                       "kind": "design", "text": texts[i], "design_b64": dump_design(designs[i]), "label": labels[i],
+                       "partition": impl[i]["mods"]}, no_input=True)
     res.count("disagreements_explained_by_findings", len(todo) - len(unexplained))
     reported = 0
     for (i, det) in unexplained:
@@ -589,7 +604,10 @@ def judge_designs(res, binary, designs, labels, tier, tagname):
             dv = im["loops"] > 0
             if dv != det or G.py_verdict(c, frozenset()) == dv:
                 return False
-            return explain(c, im, dv) is None
+            e2 = explain(c, im, dv)
+            if e2 is None:
+                return True
+            return i in part_bad and "partition-not-closed" in e2[0] and bool(partition_split_ok(c, im) or partition_closed_once(c, im))
         small = d
         try:
             small = shrink(binary, d, pred, budget=40 if tier == "quick" else 120)
